@@ -213,7 +213,7 @@ def evaluate(case, out):
     try:
         idx = CVR.consistent_sampling(cvrs, contests)
         cs, ms = [cvrs[i] for i in idx], [mvrs[i] for i in idx]
-        if len(cvrs) % 5 == 0 and len(idx) >= 2:
+        if len(cvrs) % 5 == 0 and len(idx) >= 2 and not any(s["test"] == "kk" for s in scn["contests"].values()):
             # a sample may hold the same card more than once (drawing with replacement; the tests are then told that the
             # population is infinite): every draw is an observation
             rep = [0, len(idx) // 2, 0]
@@ -233,7 +233,12 @@ def evaluate(case, out):
         out.cls(scn["contests"][cid]["kind"], con.audit_type, scn["contests"][cid]["test"])
         for k, a in con.assertions.items():
             try:
-                d, u = a.mvrs_to_data(ms, cs)
+                if con.audit_type == "POLLING":
+                    # a polling contest's data are the assorter's values on the manual records, whatever else is passed
+                    # along for the comparison contests of the same audit
+                    d, u = np.array([a.assorter.assort(m) for m in ms]), a.assorter.upper_bound
+                else:
+                    d, u = a.mvrs_to_data(ms, cs)
                 t = fresh[(cid, k)]
                 t.u = u
                 p2, h2 = t.test(d)
